@@ -1,5 +1,7 @@
 """C06 — lookups under concurrency (core/manager/manager.go Get / UpdateResource)."""
+import json
 from .concgen import ConcPart
+from . import sysgen, p_c01
 
 PROP = "C06"
 PROP_FILE = "Properties/C06.v"
@@ -11,4 +13,47 @@ RULE = ("schedules of 1..3 concurrent lookups (same and different names, a full-
 ASSUMPTIONS = ["atomicity of the sections between yield points (each runs under m.mu) is what the generated lock skeleton of C07 states",
                "real time is not modelled: 'bounded time' is bounded steps + progress; wall-clock is not measured here (partial)",
                "Go's runtime scheduler inside an atomic section is irrelevant by construction; a select that finds both channels ready may take either branch: the model follows the branch observed"]
-PARTS = [ConcPart(PROP, 1)]
+
+
+class E2EGen(sysgen.SysGen):
+    E2E = 0.25
+
+
+class E2E(p_c01.Part):
+    """end to end: a lookup that really waits (Get with a deadline) on the real manager + client, the next response arrives
+    through the stream, the waiting caller returns.  Model, comparison and per-key specification are C01's: the waiting
+    caller must return exactly what a lookup at that moment returns when the resource is cached by then, and an error
+    when it is not."""
+    NAME = "e2e"
+    N_QUICK, N_THOROUGH = 80, 800
+    RULE = ("e2e part: histories as in C01 (both configurations) in which every fourth operation is a lookup that WAITS (a real Get with a 1.5 s "
+            "deadline; the step ends when its notifier is registered), followed by a response of (mostly) its type through the fake stream and by "
+            "the return of the waiting caller, whose result is compared with the model's lookup at that moment when the resource is cached by "
+            "then (the caller was woken, or reads the cache when its deadline passes) and must be an error when it is not")
+
+    @classmethod
+    def gen_cases(cls, rng, tier):
+        n = cls.N_QUICK if tier == "quick" else cls.N_THOROUGH
+        return [E2EGen(rng).history(rng.choice([8, 12, 20]), istio=rng.random() < 0.5, lds_warm=rng.random() < 0.3) for _ in range(n)]
+
+    @staticmethod
+    def PROJECT(v, c, o):
+        (cache, lookup, reqs, watched, acks, table, closed, s1, s2, s3, s4, s10, s19, sfull) = v
+        return (cache and lookup and reqs and watched, s1 and sfull)
+
+    @classmethod
+    def model_view(cls, c, o, tier):
+        return sysgen.model_view(PROP, c, o, tier)
+
+    @staticmethod
+    def nontrivial(c, o):
+        if o.get("fatal"):
+            return None
+        woken = any(st.get("joined") == "cached" for st in o["steps"])
+        return json.dumps(c["ops"], sort_keys=True) if woken else None
+
+
+RULE = "conc part: " + RULE + "; " + E2E.RULE
+ASSUMPTIONS = ASSUMPTIONS + ["e2e part: " + a for a in p_c01.ASSUMPTIONS] + [
+    "e2e part: whether the waiting caller was woken by the notification or read the cache when its deadline passed is not distinguished (its elapsed time is not compared)"]
+PARTS = [ConcPart(PROP, 1), E2E]
